@@ -166,6 +166,9 @@ def gen_case(rng, abi=False):
         modname = names.new('pkg_') + '.' + modname
     source = None if abi else ('/* prelude %d */\n#include <stddef.h>\n' % rng.below(1000) +
                                '\n'.join('/* %s */' % names.new('c_') for _ in range(rng.randint(0, 3))))
+    if source is not None and rng.chance(0.3):
+        # non-ASCII text in the C source (encoded length != number of characters)
+        source += '\n/* %s */\n' % rng.choice(['caf\u00e9', '\u00fcber \u2192 na\u00efve', '\u4e2d\u6587 \U0001f600', '\u00a9 2026'])
     packed = rng.chance(0.1)
     return dict(cdef='\n'.join(decls), name=modname, source=source, packed=packed)
 
